@@ -279,6 +279,35 @@ class Engine:
                     self._record(ob)
                     self.assume(goal)
                     return
+        if kind == 'requires@call' and _has_quant(g):
+            # a callee precondition that a proof hook has already established as a named fact (every named fact is part of
+            # the path): the goal is that assumption up to the names of its bound variables
+            for fk, fv in self.st.ghost.get('facts', {}).items():
+                if any(_alpha_eq(h, goal) for h in (fv if isinstance(fv, list) else [fv]) if z3.is_expr(h)):
+                    ob.status, ob.backend = 'unsat', 'simplify'
+                    self._record(ob)
+                    self.assume(goal)
+                    return
+        if kind == 'lib-pre' and _has_quant(g) and self.st.ghost.get('facts', {}).get('requires'):
+            # first try: from the function's own precondition and the quantifier-free part of the path (a subset of the
+            # assumptions; anything else falls through to the full context)
+            s_ = z3.Solver()
+            s_.set('timeout', 3000)
+            for a in self.assumptions:
+                if not _has_quant(a):
+                    s_.add(a)
+            for a in self.st.ghost['facts']['requires']:
+                s_.add(a)
+            s_.add(z3.Not(goal))
+            t0 = time.time()
+            r_ = _chk(s_)
+            self.stats['z3_time'] += time.time() - t0
+            if r_ == z3.unsat:
+                ob.status, ob.backend, ob.time = 'unsat', 'z3', time.time() - t0
+                self.stats['checks'] += 1
+                self._record(ob)
+                self.assume(goal)
+                return
         self._discharge(ob)
         self._record(ob)
         self.assume(goal)
